@@ -779,6 +779,7 @@ pub fn cmd_check(a: CheckArgs) -> i32 {
         ("F-realloc-move (reallocs that moved the block)", J::u(c.reallocs_moved)),
         ("F-realloc-in-place", J::u(c.reallocs_in_place)),
         ("F-page-end (allocations flush against a PROT_NONE guard page)", J::u(c.guarded)),
+        ("F-straddle-4G (allocations placed across or flush against a multiple of 4 GiB)", J::u(c.straddled)),
         ("F-oom (allocation requests that returned null)", J::u(c.failed_allocs + fault("oom_landed_in_vec_or_box_abort"))),
         ("F-oom landed in new_boxed (controlled panic)", J::u(fault("oom_landed_in_new_boxed_panic"))),
         ("F-oom landed in Vec/Box::new (handle_alloc_error abort)", J::u(fault("oom_landed_in_vec_or_box_abort"))),
